@@ -199,3 +199,8 @@ def ob_arms(chk, rule, site, law, body, max_arms=16, **kw):
             continue
         chk.ob(rule, site, "%s [arm %s]" % (law, label), lambda v=verdict: v,
                construct=cons if label == "generic" else "%s [arm %s]" % (cons, label), **kw)
+
+
+def DEG2RAD_of(it, mod):
+    """the repo's own DEG2RAD constant as an abstract value"""
+    return it.module_global(mod, "DEG2RAD")
